@@ -400,11 +400,75 @@ class Program:
             if all(o is not None for o in operands):
                 return name, operands, thunk
 
+    def rare_seeds(self):
+        """states ordinary generation rarely reaches: a negative year with no
+        expanded digits (str() of it raises OverflowError), year 0, 1 and 3
+        expanded digits, an own dump format, decimal forms"""
+        repo = self.repo
+        base = {"month_of_year": 3, "day_of_month": 1, "hour_of_day": 6,
+                "minute_of_hour": 30, "second_of_minute": 15,
+                "time_zone_hour": 0, "time_zone_minute": 0}
+        for extra in ({"year": -7}, {"year": 0}, {"year": -7,
+                      "num_expanded_year_digits": 2},
+                      {"year": 12345, "num_expanded_year_digits": 1},
+                      {"year": 2000, "num_expanded_year_digits": 3},
+                      {"year": 2000, "dump_format": "CCYYMMDDThhmmZ"},
+                      {"year": 1999, "time_zone_hour": -3,
+                       "time_zone_minute": -30}):
+            self.add(repo.TimePoint(**dict(base, **extra)))
+        self.add(repo.TimePoint(year=-4, day_of_year=366, hour_of_day=24))
+        self.add(repo.TimePoint(year=-400, week_of_year=1, day_of_week=1,
+                                hour_of_day=6, hour_of_day_decimal=0.5))
+        neg = repo.TimePoint(**dict(base, year=-3))
+        self.add(repo.TimeRecurrence(repetitions=3, start_point=neg,
+                                     duration=repo.Duration(years=1)))
+
+    def unary_sweep(self):
+        """every looking-at operation on every seeded value, once, under
+        the same snapshot comparison as the random steps"""
+        itertools_islice = itertools.islice
+        for o in list(self.pool):
+            kind = type(o).__name__
+            ops = [("str", lambda o=o: str(o)), ("repr", lambda o=o: repr(o)),
+                   ("hash", lambda o=o: hash(o)),
+                   ("eq-self", lambda o=o: o == o)]
+            if kind == "TimePoint":
+                ops += [("get_props", lambda o=o: o.get_props()),
+                        ("to_utc", lambda o=o: o.to_utc()),
+                        ("to_week", lambda o=o: o.to_week_date()),
+                        ("to_ord", lambda o=o: o.to_ordinal_date()),
+                        ("to_cal", lambda o=o: o.to_calendar_date()),
+                        ("epoch", lambda o=o: o.seconds_since_unix_epoch),
+                        ("copy+0", lambda o=o: o + self.repo.Duration()),
+                        ("strftime", lambda o=o: o.strftime("%Y %j %s"))]
+            elif kind in ("Duration", "TimeZone"):
+                ops += [("to_days", lambda o=o: o.to_days()),
+                        ("secs", lambda o=o: o.get_seconds()),
+                        ("neg", lambda o=o: -1 * o), ("abs", lambda o=o: abs(o))]
+            elif kind == "TimeRecurrence":
+                ops += [("iter", lambda o=o: list(itertools_islice(iter(o),
+                                                                   4))),
+                        ("props", lambda o=o: (o.start_point, o.end_point,
+                                               o.duration, o.repetitions))]
+            for name, thunk in ops:
+                self.step(-1, "sweep." + name, (o,), thunk)
+        self.compare_all(full=True)
+
     def run(self):
         ctx = self.ctx
         self.seed_pool()
+        self.rare_seeds()
+        self.unary_sweep()
         for step in range(self.nsteps):
             name, operands, thunk = self.choose()
+            self.step(step, name, operands, thunk)
+            if step % 10 == 9:
+                self.compare_all(full=(step % 100 == 99))
+        self.compare_all(full=True)
+
+    def step(self, step, name, operands, thunk):
+        ctx = self.ctx
+        if True:
             ctx.current_step = (step, name)
             before = [snap_slots(o) for o in operands]
             ctx.counters["steps"] += 1
@@ -443,9 +507,6 @@ class Program:
                              for o in operands):
                         ctx.cls("alias/shared-time-zone")
                     self.add(res)
-            if step % 10 == 9:
-                self.compare_all(full=(step % 100 == 99))
-        self.compare_all(full=True)
 
     def compare_all(self, full):
         ctx = self.ctx
